@@ -7,6 +7,7 @@ import (
 	"math/big"
 	"sort"
 	"strings"
+	"sync"
 	"time"
 
 	"github.com/NethermindEth/juno/core/felt"
@@ -133,9 +134,13 @@ func claimTruth(c *RangeClaim) (isTrue, more bool) {
 		for _, kv := range sorted {
 			inTrie[kv.K] = kv.V
 		}
+		// keys non-decreasing; of a repeated key the LAST value is what the list says
 		listed := map[string]bool{}
 		for i, k := range c.Keys {
-			if inTrie[k] != c.Values[i] || (i > 0 && c.Keys[i-1] >= k) {
+			if i > 0 && c.Keys[i-1] > k {
+				return false, false
+			}
+			if (i+1 == len(c.Keys) || c.Keys[i+1] != k) && inTrie[k] != c.Values[i] {
 				return false, false
 			}
 			listed[k] = true
@@ -184,8 +189,25 @@ func (c *ctx) rangeSection(r *lib.RNG, out chan<- batch) {
 		}
 	}
 	nTries := c.f.Scale(60, 600)
+	var wg sync.WaitGroup
+	sem := make(chan struct{}, 16)
+	defer wg.Wait()
 	for ti := 0; ti < nTries; ti++ {
+		ti := ti
 		rr := r.Fork(uint64(ti))
+		wg.Add(1)
+		sem <- struct{}{}
+		go func() {
+			defer func() { <-sem; wg.Done() }()
+			c.rangeTrie(ti, rr, rcfg, out)
+		}()
+	}
+}
+
+// rangeTrie: the range claims on one random trie.
+func (c *ctx) rangeTrie(ti int, rr *lib.RNG, rcfg string, out chan<- batch) {
+	res := c.res
+	{
 		impl := []string{"legacy", "trie2"}[ti%2]
 		n := 1 + rr.Intn(12)
 		spec := TrieSpec{Impl: impl, Hash: "ped", Height: 251}
@@ -196,7 +218,7 @@ func (c *ctx) rangeSection(r *lib.RNG, out chan<- batch) {
 		bt, err := buildTrie(&spec)
 		if err != nil {
 			res.Fatalf("range: build: %v", err)
-			continue
+			return
 		}
 		rootHex := fhex(&bt.root)
 		kvs := spec.KVs
@@ -261,6 +283,29 @@ func (c *ctx) rangeSection(r *lib.RNG, out chan<- batch) {
 					return // the alteration produced another true claim
 				}
 				eval(cl)
+			}
+			// the cases of verifyProofData's preamble
+			if hi > lo {
+				tamp("keys-unsorted", func(cl *RangeClaim) {
+					cl.Keys[0], cl.Keys[1] = cl.Keys[1], cl.Keys[0]
+					cl.Values[0], cl.Values[1] = cl.Values[1], cl.Values[0]
+				})
+				tamp("first-not-below-last", func(cl *RangeClaim) { cl.First = cl.Keys[len(cl.Keys)-1] })
+			}
+			tamp("zero-value", func(cl *RangeClaim) { cl.Values[rr.Intn(len(cl.Values))] = "0" })
+			{
+				// a key listed twice: with the same value (a true claim) and with a wrong value first (the last one counts)
+				di := rr.Intn(hi - lo + 1)
+				for _, firstVal := range []string{"", "5"} {
+					cl := mkClaim("duplicate-key", first, lo, hi, proof)
+					v := cl.Values[di]
+					if firstVal != "" {
+						v = firstVal
+					}
+					cl.Keys = append(cl.Keys[:di:di], append([]string{cl.Keys[di]}, cl.Keys[di:]...)...)
+					cl.Values = append(cl.Values[:di:di], append([]string{v}, cl.Values[di:]...)...)
+					eval(cl)
+				}
 			}
 			vi := lo + rr.Intn(hi-lo+1)
 			tamp("value-changed", func(cl *RangeClaim) { cl.Values[vi-lo] = bumpHex(cl.Values[vi-lo]) })
@@ -420,6 +465,15 @@ func (c *ctx) evalRange(cl *RangeClaim, pending *batch, rcfg, id string) {
 			for _, f := range facts {
 				sb.WriteString(" " + f)
 			}
+			// the hash evaluations of the REBUILT trie (which is not the true trie when the claim is
+			// altered): asked from the model round by round and evaluated with the real hash, so that
+			// the model's verdict comes from `fill`, not from a missing table entry
+			if c.f.Thorough() || honestKind(cl.Kind) || fnv32(sb.String())%4 == 0 {
+				if extra, ok := c.neededFacts(sb.String()); ok {
+					sb.WriteString(extra)
+				}
+				res.Hit("range-model:multi-with-hashes-of-the-rebuilt-trie")
+			}
 			implAns := class
 			if class == "ok" {
 				implAns = "ok 0"
@@ -453,6 +507,16 @@ func (c *ctx) evalRange(cl *RangeClaim, pending *batch, rcfg, id string) {
 		cc := cl
 		pending.checks = append(pending.checks, check{line: sb.String(), impl: implAns, sig: "trie2:range-model:all:" + cl.Kind, replay: func() any { return cc }})
 		res.Hit("range-model:all:" + cl.Kind)
+	}
+	if impl == "legacy" && !isTrue && (class == "ok" || class == "err") {
+		c.legacyMu.Lock()
+		st := c.legacyFalse[cl.Kind]
+		st[1]++
+		if class == "ok" {
+			st[0]++
+		}
+		c.legacyFalse[cl.Kind] = st
+		c.legacyMu.Unlock()
 	}
 	honest := strings.HasPrefix(cl.Kind, "honest")
 	// attribution to the cause: when two places of the trie hold identical subtrees the node set has
@@ -490,12 +554,58 @@ func (c *ctx) evalRange(cl *RangeClaim, pending *batch, rcfg, id string) {
 	}
 }
 
+func honestKind(k string) bool { return strings.HasPrefix(k, "honest") }
+
 func fnv32(s string) uint32 {
 	h := uint32(2166136261)
 	for i := 0; i < len(s); i++ {
 		h = (h ^ uint32(s[i])) * 16777619
 	}
 	return h
+}
+
+// neededFacts asks the model which hash evaluations the rebuilt trie of a `r2 … multi` request still
+// lacks, evaluates them with the real Pedersen hash and repeats until nothing is missing.
+func (c *ctx) neededFacts(r2line string) (string, bool) {
+	drv := <-c.syncDrv
+	defer func() { c.syncDrv <- drv }()
+	if drv == nil {
+		return "", false
+	}
+	need := "r2need" + strings.TrimPrefix(r2line, "r2")
+	var extra strings.Builder
+	hf := hashFnOf("ped")
+	for round := 0; round < 600; round++ {
+		ans, err := drv.Ask(need + extra.String())
+		if err != nil {
+			c.res.Fatalf("range: the driver died in r2need: %v", err)
+			return extra.String(), false
+		}
+		if ans == "none" {
+			c.res.HitN("range-model:r2need-rounds", round)
+			return extra.String(), true
+		}
+		if !strings.HasPrefix(ans, "need ") {
+			c.res.Fatalf("range: r2need answers %.100q", ans)
+			return extra.String(), false
+		}
+		for _, tok := range strings.Fields(ans)[1:] {
+			ab := strings.Split(tok, ":")
+			if len(ab) != 2 || len(ab[0]) > 64 || len(ab[1]) > 64 {
+				continue // an argument outside the field (the model's "no value"): nothing to evaluate
+			}
+			an, ok1 := new(big.Int).SetString(ab[0], 16)
+			bn, ok2 := new(big.Int).SetString(ab[1], 16)
+			if !ok1 || !ok2 || an.Cmp(feltP) >= 0 || bn.Cmp(feltP) >= 0 {
+				continue
+			}
+			a, b := hexFelt(ab[0]), hexFelt(ab[1])
+			h := hf(&a, &b)
+			extra.WriteString(" " + fhex(&a) + ":" + fhex(&b) + ":" + fhex(&h))
+		}
+	}
+	c.res.Fatalf("range: r2need does not converge")
+	return extra.String(), false
 }
 
 // proofSharesNode: some node of the set is referenced from two places (identical subtrees).
@@ -516,6 +626,31 @@ func proofSharesNode(p Proof) bool {
 		}
 	}
 	return false
+}
+
+// The legacy trie's VerifyRangeProof accepts a FRACTION of some kinds of false claims (known findings, by
+// kind). A known signature must not absorb a regression that accepts many more: per kind the accepted
+// fraction observed on the unchanged tree is bounded (with slack); above the bound it is another signature.
+var legacyAcceptedBound = map[string]float64{
+	"value-changed": 0.08, "key-changed": 0.15, "element-inserted": 0.12, "element-appended-beyond-proof": 0.25,
+	"zero-value": 0.0, "keys-unsorted": 0.0, "no-proof-element-dropped": 0.0, "no-proof-value-changed": 0.0,
+}
+
+func (c *ctx) legacyFractionCheck() {
+	c.legacyMu.Lock()
+	defer c.legacyMu.Unlock()
+	for kind, st := range c.legacyFalse {
+		bound, ok := legacyAcceptedBound[kind]
+		c.res.SetExtra("legacy_range_false_claims_accepted:"+kind, fmt.Sprintf("%d of %d", st[0], st[1]))
+		if !ok || st[1] < 30 {
+			continue
+		}
+		if frac := float64(st[0]) / float64(st[1]); frac > bound {
+			c.res.Violate(lib.Violation{Sig: "legacy:range:" + kind + ":accepted-fraction-above-known-bound",
+				What:   fmt.Sprintf("legacy VerifyRangeProof accepts %d of %d false claims of kind %s (known: at most %.0f%%)", st[0], st[1], kind, bound*100),
+				Replay: map[string]any{"kind": kind, "accepted": st[0], "total": st[1]}})
+		}
+	}
 }
 
 // leafIsNodeHashClaim builds a trie2 trie in which one key holds x = hash of the node
